@@ -19,7 +19,8 @@ import (
 // pseudo-operations mutate buffers handed in / out earlier.
 
 type fsHistIn struct {
-	Ops []FsOp `json:"ops"`
+	Ops  []FsOp    `json:"ops"`
+	Wide *WideSpec `json:"wide,omitempty"` // the history starts with a many-entry directory "w" (created, partly removed)
 }
 
 var debugOps = os.Getenv("SIM_DEBUG") != ""
@@ -108,6 +109,13 @@ func genFsOps(r *Rand, n int, extra []string, plainSpelling bool, gm *ModelTree)
 			op.View = r.Intn(len(prefixes))
 		}
 		op.Path = sp(poolPath(r, 3))
+		if gm.has("w") && r.Chance(1, 3) {
+			// the many-entry directory, when the history has one: its entries (present, removed or new) and itself
+			op.Path = sp([]string{"w", fmt.Sprintf("n%03d", r.Intn(150))})
+			if op.Kind == "ReadDir" || (op.Kind == "Filespace") || r.Chance(1, 12) {
+				op.Path = sp([]string{"w"})
+			}
+		}
 		switch op.Kind {
 		case "WriteFile", "Writer":
 			op.Data = fmt.Sprintf("#%d:%s", i, strings.Repeat("x", r.Pick(0, 0, 1, 3, 17, 64)))
@@ -119,6 +127,10 @@ func genFsOps(r *Rand, n int, extra []string, plainSpelling bool, gm *ModelTree)
 			}
 			if r.Chance(1, 25) && op.Data != "" {
 				op.Big = r.Pick(4096, 33000, 70000) // past buffer, page and "large file" thresholds
+				if r.Chance(1, 3) {
+					op.Big = r.Pick(4096, 8192, 12288, 70000)
+					op.Zero = true // all-zero blocks and a zero tail: what a sparse-aware copy skips
+				}
 			}
 			if op.Kind == "Writer" {
 				for k := r.Intn(4); k > 0; k-- {
@@ -191,7 +203,16 @@ func c01Gen(r *Rand, tier string) interface{} {
 	if tier == "thorough" && r.Chance(1, 10) {
 		n = 40 + r.Intn(160)
 	}
-	return &fsHistIn{Ops: genFsOps(r, n, []string{"MutateWritten", "MutateRead"}, false, nil)}
+	in := &fsHistIn{}
+	var gm *ModelTree
+	if r.Chance(1, 20) {
+		in.Wide = genWide(r)
+		gm = NewModelTree()
+		_ = in.Wide.Apply(nil, gm, nil)
+		n = 1 + r.Intn(12) // every step walks the whole tree: keep these histories short
+	}
+	in.Ops = genFsOps(r, n, []string{"MutateWritten", "MutateRead"}, false, gm)
+	return in
 }
 
 // fsView is one view of the implementation with its model prefix.
@@ -428,6 +449,15 @@ func c01Run(inI interface{}, env *Env) *Failure {
 	}
 	h := &histChecker{prop: "C01", model: NewModelTree(), root: mem, views: []fsView{{fs: mem}}, env: env}
 	qr := NewRand(uint64(len(in.Ops))*7919 + 17)
+	if in.Wide != nil {
+		env.Count("probe.history-with-a-many-entry-directory")
+		if err := in.Wide.Apply(mem, h.model, mem); err != nil {
+			return failf("C01/refused-valid", "wide", "building the many-entry directory: %v", err)
+		}
+		if f := h.compareState(-1, FsOp{Kind: "wide-directory", Path: fmt.Sprintf("%d created, %d removed", in.Wide.N, in.Wide.Remove)}, qr); f != nil {
+			return f
+		}
+	}
 	for i, op := range in.Ops {
 		if f := h.step(i, op); f != nil {
 			return f
@@ -446,50 +476,61 @@ func c01Run(inI interface{}, env *Env) *Failure {
 func fsHistShrink(inI interface{}) []interface{} {
 	in := inI.(*fsHistIn)
 	var out []interface{}
+	if in.Wide != nil {
+		out = append(out, &fsHistIn{Ops: append([]FsOp(nil), in.Ops...)})
+		if in.Wide.N > 65 {
+			w := *in.Wide
+			w.N = 65
+			if w.Remove > w.N-1 {
+				w.Remove = w.N - 1
+			}
+			out = append(out, &fsHistIn{Wide: &w, Ops: append([]FsOp(nil), in.Ops...)})
+		}
+	}
 	// drop the tail, then single operations
 	for n := len(in.Ops) / 2; n >= 1 && n < len(in.Ops); n = n + (len(in.Ops)-n+1)/2 {
-		out = append(out, &fsHistIn{Ops: append([]FsOp(nil), in.Ops[:n]...)})
+		out = append(out, &fsHistIn{Wide: in.Wide, Ops: append([]FsOp(nil), in.Ops[:n]...)})
 		if n == len(in.Ops)-1 {
 			break
 		}
 	}
 	for i := range in.Ops {
-		c := &fsHistIn{Ops: append(append([]FsOp(nil), in.Ops[:i]...), in.Ops[i+1:]...)}
+		c := &fsHistIn{Wide: in.Wide, Ops: append(append([]FsOp(nil), in.Ops[:i]...), in.Ops[i+1:]...)}
 		out = append(out, c)
 	}
 	// simpler spellings and data
 	for i, op := range in.Ops {
 		segs, climbs := normPath(op.Path)
 		if plain := strings.Join(segs, "/"); !climbs && plain != op.Path && op.Path != "" {
-			c := &fsHistIn{Ops: append([]FsOp(nil), in.Ops...)}
+			c := &fsHistIn{Wide: in.Wide, Ops: append([]FsOp(nil), in.Ops...)}
 			c.Ops[i].Path = plain
 			out = append(out, c)
 		}
 		if op.Path2 != "" {
 			segs2, climbs2 := normPath(op.Path2)
 			if plain := strings.Join(segs2, "/"); !climbs2 && plain != op.Path2 {
-				c := &fsHistIn{Ops: append([]FsOp(nil), in.Ops...)}
+				c := &fsHistIn{Wide: in.Wide, Ops: append([]FsOp(nil), in.Ops...)}
 				c.Ops[i].Path2 = plain
 				out = append(out, c)
 			}
 		}
 		if op.View != 0 {
-			c := &fsHistIn{Ops: append([]FsOp(nil), in.Ops...)}
+			c := &fsHistIn{Wide: in.Wide, Ops: append([]FsOp(nil), in.Ops...)}
 			c.Ops[i].View = 0
 			out = append(out, c)
 		}
 		if op.Big > 0 {
-			c := &fsHistIn{Ops: append([]FsOp(nil), in.Ops...)}
+			c := &fsHistIn{Wide: in.Wide, Ops: append([]FsOp(nil), in.Ops...)}
 			c.Ops[i].Big = 0
 			out = append(out, c)
 		}
 		if len(op.Data) > 4 {
-			c := &fsHistIn{Ops: append([]FsOp(nil), in.Ops...)}
+			c := &fsHistIn{Wide: in.Wide, Ops: append([]FsOp(nil), in.Ops...)}
 			c.Ops[i].Data = op.Data[:3]
 			out = append(out, c)
 		}
 		if len(op.Chunks) > 0 {
-			c := &fsHistIn{Ops: append([]FsOp(nil), in.Ops...)}
+			c := &fsHistIn{Wide: in.Wide, Ops: append([]FsOp(nil), in.Ops...)}
 			c.Ops[i].Chunks = nil
 			out = append(out, c)
 		}
